@@ -278,6 +278,9 @@ func crashRecord(line []byte, kind, stderr string, d time.Duration) []byte {
 	}
 	msg := firstLine(stderr)
 	ev["out"] = crashOut(ev, kind, plencFrame(stderr), msg, int(d/time.Millisecond))
+	if ev["ev"] == "hist" {
+		ev["out"] = map[string]any{"kind": kind, "where": plencFrame(stderr), "msg": msg, "steps": []any{}}
+	}
 	b, _ := json.Marshal(ev)
 	return b
 }
